@@ -57,6 +57,43 @@ CLAIMED.update({
         ref="DESIGN.md §5 C18", note=NOTE_COMMON + " A cycle at the time of a cancelled request is tolerated here (F1 is owned by C03)."),
 })
 
+CLAIMED.update({
+    "C04": dict(
+        text=("Model-based exploration of the four endpoint facts: a scripted writer over random schemas (depth <= 3) follows a generated "
+              "write history with several writes per cycle, gaps, child-only writes and explicit invalidations; consumers are bound to the "
+              "whole output, to a child path and from inside a nested child; a metronome forces a cycle at every smallest step. After every "
+              "cycle modified / valid / last-modified-time / value / per-tick delta are read at every node of the producer's tree and of "
+              "every consumer's view and compared with the write history and with each other. Known findings F2 (invalidation) and F9 "
+              "(stale child delta through a consumer view) are excluded by construction and counted."),
+        technique="property-based testing: Hypothesis schema+history generator, sequential Python value model, invariants over per-cycle snapshots",
+        ref="DESIGN.md §5 C04, §5a F2", note=NOTE_COMMON + " Tick-window validity is owned by C05; same-cycle erase+rewrite of a key is not generated here."),
+    "C05": dict(
+        text=("Model-based exploration of collection deltas: generated (and state-machine-built) mutation histories over TSS/TSD (nested "
+              "values)/TSL/TSB/TSW with cancelling pairs, re-insertions, clears and growth across slot-capacity boundaries; at every tick "
+              "the observed value must equal the sequentially applied script, and value(t) must equal value(t-1) with the observed delta "
+              "applied (added/removed disjoint, removed present before, cancelled mutations leaving no trace), the typed accessors and "
+              "capture_delta must agree with delta_value, windows must hold the last N pushes and be valid from their minimum count. "
+              "Known findings F3 and F6 are excluded by construction and counted."),
+        technique="property-based testing: Hypothesis composite + RuleBasedStateMachine histories, reference value model, delta/value coherence invariants",
+        ref="DESIGN.md §5 C05, §5a F3 F6", note=NOTE_COMMON + " Payloads of never-written children are not compared."),
+    "C08": dict(
+        text=("Relational + model-based exploration of feedback: programs with 1-3 feedback edges (accumulator self loops, mutual loops, "
+              "relays of TS/TSS/TSD writers, with/without initial value, passive/active readers, inside a nested child) are run; the "
+              "recorder on each feedback reader must show exactly the producer's ticks shifted by one smallest step (initial value at "
+              "start), same deltas, never in the producing cycle; for scalar loops the whole run must equal a delay-one reference model "
+              "(quiescence of passive loops, values of active ones)."),
+        technique="property-based testing: Hypothesis loop generator, shift-by-one relation between recorder streams, reference model",
+        ref="DESIGN.md §5 C08", note=NOTE_COMMON + " Cancelling mutations inside one cycle are left to C05."),
+    "C20": dict(
+        text=("Round-trip exploration: for random schemas and tick histories the original run records with the library's record operator, "
+              "a second run in the same request replays the recorded Values with the replay operator and records again; recordings, tick "
+              "times, deltas and values must be equal; beside it a capture_delta->apply_delta mirror must track the source tick by tick "
+              "and re-capture the same delta. Known finding F8 (replay validates never-ticked empty collection children) is excluded "
+              "and counted."),
+        technique="property-based testing: Hypothesis schema+history generator, record/replay and capture/apply round-trip oracles",
+        ref="DESIGN.md §5 C20", note=NOTE_COMMON + " Runs start at MIN_ST (the TESTING backend's dense buffer is indexed from there); ticks with an empty structural delta that leave the value unchanged are optional on both sides (documented as not externally observable)."),
+})
+
 NOT_YET = {}
 
 
